@@ -151,4 +151,20 @@ example : WFS [(3, [1, 2, 2]), (1, [0]), (2, [0]), (0, []), (4, [])] :=
   ⟨by decide, by decide⟩
 example : topo [(0, [1]), (1, [0]), (2, [])] = some ([2, 1, 0], true) := by decide
 
+/-- the roots of a kernel build: a class is collected from a kernel description exactly when it has a C API and is the
+type of an argument or of the return value -/
+theorem C14_kernel_classes (args : List (Name × Bool)) (ret : Option (Name × Bool)) (c : Name) :
+    c ∈ kernelClasses args ret ↔ (c, true) ∈ args ∨ ret = some (c, true) := by
+  unfold kernelClasses
+  simp only [List.mem_append, List.mem_map, List.mem_filter]
+  constructor
+  · rintro (⟨⟨a, b⟩, ⟨hm, hb⟩, rfl⟩ | h)
+    · left; simp at hb; subst hb; exact hm
+    · right
+      match ret, h with
+      | some (c', true), h => simp at h; subst h; rfl
+  · rintro (h | h)
+    · left; exact ⟨(c, true), ⟨h, rfl⟩, rfl⟩
+    · right; subst h; simp
+
 end Topo
